@@ -235,6 +235,8 @@ def main():
     ap.add_argument('--seconds', type=float, default=20.0)
     ap.add_argument('--clause', type=int, default=None)
     a = ap.parse_args()
+    from .replay import _scratch_cwd
+    _scratch_cwd()
     for m in a.modules.split(','):
         importlib.import_module(m)
     from .api import REG
